@@ -142,6 +142,8 @@ class Recorder:
                 "fits": [],
                 "model": None,
                 "seed": self_.model_settings.get("seed", SEED_DEFAULT),
+                # the scale multiplier of the model settings (1 unless the request sets it): applied ONCE to the scale
+                "beta": float(self_.model_settings.get("beta", 1)),
             }
             if rec.capture_frames:
                 ctx["conf"] = unit_prediction_intervals.conformalization.copy()
@@ -425,7 +427,8 @@ def run_scenario(sc, seed, alpha=0.9, boot_iterations=None, second_col=None):
     fr = materialise(sc, seed, second_col)
     fr.alpha = alpha
     fr.boot_iterations = boot_iterations
-    m = GaussianElectionModel(dict(MODEL_SETTINGS))
+    fr.beta = (1, 1, 2, 0.5)[seed % 4]
+    m = GaussianElectionModel(dict(MODEL_SETTINGS, beta=fr.beta))
     # normally left on the model by get_unit_prediction_intervals: the unadjusted unit bounds of the nonreporting rows
     m.alpha_to_nonreporting_lower_bounds[alpha] = fr.unit_lo.copy()
     m.alpha_to_nonreporting_upper_bounds[alpha] = fr.unit_hi.copy()
@@ -542,8 +545,9 @@ def numeric_check(fr, call, obs):
         ref = fr.pools[r["pool"]]
         infl, mu_lo, mu_hi, s_lo, s_hi = r["stats"]
         # the statistics of the pool
-        s_lo_ref = boot_sigma_ref(ref["lo"], q_conf, n_boot, SEED_DEFAULT)
-        s_hi_ref = boot_sigma_ref(ref["hi"], q_conf, n_boot, SEED_DEFAULT)
+        beta = float(getattr(fr, "beta", 1))
+        s_lo_ref = beta * boot_sigma_ref(ref["lo"], q_conf, n_boot, SEED_DEFAULT)
+        s_hi_ref = beta * boot_sigma_ref(ref["hi"], q_conf, n_boot, SEED_DEFAULT)
         for name, o, e in (("sigma_lower", s_lo, s_lo_ref), ("sigma_upper", s_hi, s_hi_ref)):
             if not (abs(o - e) <= 1e-9 * max(1.0, abs(e))):
                 bad.append({"clause": f"{name}_is_seeded_bootstrap_of_pool_scores", "group": list(g), "expected": e, "observed": o})
@@ -655,6 +659,9 @@ def run_real(seed, boot_iterations=None, district=False, pis=(0.7, 0.9), estiman
         # estimand must use that estimand's own unit bounds (seeded change C15_D)
         if estimands is None:
             estimands = {0: (EST,), 1: (EST, "dem"), 2: ("dem", EST)}[seed % 3]
+        beta = (1, 2, 1, 0.5)[(seed // 3) % 4]
+        if beta != 1:
+            kw["model_parameters"] = {"beta": beta}
         synth.run_client(pre, cur, estimands=estimands, pis=pis, thr=100, features=("x1",), pi_method="gaussian", **kw)
     for c in rec.agg_calls:
         c["boot_iterations"] = boot_iterations
@@ -715,8 +722,9 @@ def trace_of(call):
         ok = abs(st[0] - infl) <= 1e-9 and st[1] in mu_lo and st[2] in mu_hi
         if ok and len(mem) >= 2:
             n_boot = call.get("boot_iterations") or 10000
-            ok = abs(st[3] - boot_sigma_ref([lo_of[u] for u in mem], q_conf, n_boot, call["seed"])) <= 1e-9 * max(1, abs(st[3])) and abs(
-                st[4] - boot_sigma_ref([hi_of[u] for u in mem], q_conf, n_boot, call["seed"])
+            beta = float(call.get("beta", 1))
+            ok = abs(st[3] - beta * boot_sigma_ref([lo_of[u] for u in mem], q_conf, n_boot, call["seed"])) <= 1e-9 * max(1, abs(st[3])) and abs(
+                st[4] - beta * boot_sigma_ref([hi_of[u] for u in mem], q_conf, n_boot, call["seed"])
             ) <= 1e-9 * max(1, abs(st[4]))
         if not ok:
             problems.append({"clause": "fit_row_statistics_of_its_group", "key": [str(x) for x in f["key"]], "stats": list(st), "n_members": len(mem)})
